@@ -192,67 +192,34 @@ Lemma transform_preserves sc arg sv ss ty v sc' x :
   eval_transform ev sc arg sv ss ty = Ok (v, sc') -> ~ In x (lets arg ++ lets_stmts ss) -> x <> implied_result ->
   sget x sc' = sget x sc.
 Proof.
-  intros H N1 N2. rewrite in_app_iff in N1.
-  assert (MAIN :
-    ('(argv, sc0) <- ev sc arg ;;
-     let finish (sc':scope) : outcome scope :=
-       sc1 <- after_iteration transform_scopevar sv (sget sv sc0) sc' ;;
-       Ok (match sget "." sc0 with Some v => sset "." v sc1 | None => sc1 end) in
-     match argv with
-     | VNil => Panic
-     | VList xs | VSet xs =>
-         match ty with
-         | TyNone => Panic
-         | TySet => '(out, sc1) <- transform_loop ev set_transform_appender sv ss xs [] sc0 ;; sc2 <- finish sc1 ;; Ok (VSet out, sc2)
-         | TyOther => '(out, sc1) <- transform_loop ev list_transform_appender sv ss xs [] sc0 ;; sc2 <- finish sc1 ;; Ok (VList out, sc2)
-         end
-     | VMap m =>
-         if negb (String.eqb sv ".")
-         then
-           '(out, sc1) <- transform_loop ev AppAlways sv ss (map (fun kv => internal_pair (fst kv) (snd kv)) m) [] sc0 ;;
-           sc2 <- finish sc1 ;;
-           Ok (match ty with TySet => VSet out | _ => VList out end, sc2)
-         else
-           '(r, sc1) <- eval_transform_stmts ev ss (sset sv argv sc0) ;; sc2 <- finish sc1 ;; Ok (r, sc2)
-     | _ =>
-         '(r, sc1) <- eval_transform_stmts ev ss (sset sv argv sc0) ;; sc2 <- finish sc1 ;; Ok (r, sc2)
-     end) = Ok (v, sc') -> sget x sc' = sget x sc).
-  { clear H. intros H. inv_bind H. destruct a as [argv sc0]. cbv zeta in H.
-    rewrite <- (Hev _ _ _ _ _ Ha) by tauto.
-    assert (LOOP : forall k xs out sc1 sc2 (w:value),
-      transform_loop ev k sv ss xs [] sc0 = Ok (out, sc1) ->
-      (sc1' <- after_iteration transform_scopevar sv (sget sv sc0) sc1 ;;
-       Ok (match sget "." sc0 with Some v => sset "." v sc1' | None => sc1' end)) = Ok sc2 ->
-      sget x sc2 = sget x sc0).
-    { intros k xs out sc1 sc2 _ HL HF. apply (transform_finish _ _ _ _ _ HF).
-      intros Nsv. apply (loop_preserves _ _ _ _ _ _ _ _ _ HL Nsv); tauto. }
-    assert (ONE : forall (a:value) r sc1 sc2,
-      eval_transform_stmts ev ss (sset sv a sc0) = Ok (r, sc1) ->
-      (sc1' <- after_iteration transform_scopevar sv (sget sv sc0) sc1 ;;
-       Ok (match sget "." sc0 with Some v => sset "." v sc1' | None => sc1' end)) = Ok sc2 ->
-      sget x sc2 = sget x sc0).
-    { intros a r sc1 sc2 HS HF. apply (transform_finish _ _ _ _ _ HF).
-      intros Nsv. rewrite (tstmts_preserves _ _ _ _ _ HS) by tauto. apply sget_sset_neq. exact Nsv. }
-    destruct argv as [| b | z | s | | l | l | m]; try discriminate.
-    - inv_bind H. destruct a as [r sc1]. inv_bind H. injection H as _ <-. apply (ONE _ _ _ _ Ha0 Ha1).
-    - inv_bind H. destruct a as [r sc1]. inv_bind H. injection H as _ <-. apply (ONE _ _ _ _ Ha0 Ha1).
-    - inv_bind H. destruct a as [r sc1]. inv_bind H. injection H as _ <-. apply (ONE _ _ _ _ Ha0 Ha1).
-    - inv_bind H. destruct a as [r sc1]. inv_bind H. injection H as _ <-. apply (ONE _ _ _ _ Ha0 Ha1).
-    - destruct ty; try discriminate; inv_bind H; destruct a as [out sc1]; inv_bind H; injection H as _ <-; apply (LOOP _ _ _ _ _ VNil Ha0 Ha1).
-    - destruct ty; try discriminate; inv_bind H; destruct a as [out sc1]; inv_bind H; injection H as _ <-; apply (LOOP _ _ _ _ _ VNil Ha0 Ha1).
-    - destruct (negb (String.eqb sv ".")).
-      + inv_bind H. destruct a as [out sc1]. inv_bind H. injection H as _ <-. apply (LOOP _ _ _ _ _ VNil Ha0 Ha1).
-      + inv_bind H. destruct a as [r sc1]. inv_bind H. injection H as _ <-. apply (ONE _ _ _ _ Ha0 Ha1). }
-  unfold eval_transform in H.
-  destruct arg; try (apply MAIN; exact H).
-  (* EName: "." is the parser's spelling of "no argument" *)
-  destruct (String.eqb x0 ".") eqn:E.
-  - apply String.eqb_eq in E. subst x0. injection H as _ <-. reflexivity.
-  - apply MAIN. revert H. clear -E.
-    destruct x0 as [|c r]; [exact (fun H => H)|].
-    destruct r as [|c2 r2]; [|destruct c as [[] [] [] [] [] [] [] []]; exact (fun H => H)].
-    destruct c as [[] [] [] [] [] [] [] []]; try exact (fun H => H).
-    cbn in E. discriminate.
+  intros H N1 N2. rewrite in_app_iff in N1. unfold eval_transform in H.
+  destruct (is_dot_name arg); [injection H as _ <-; reflexivity|].
+  inv_bind H. destruct a as [argv sc0]. cbv zeta in H.
+  rewrite <- (Hev _ _ _ _ _ Ha) by tauto.
+  assert (LOOP : forall k xs out sc1 sc2,
+    transform_loop ev k sv ss xs [] sc0 = Ok (out, sc1) ->
+    (sc1' <- after_iteration transform_scopevar sv (sget sv sc0) sc1 ;;
+     Ok (match sget "." sc0 with Some v => sset "." v sc1' | None => sc1' end)) = Ok sc2 ->
+    sget x sc2 = sget x sc0).
+  { intros k xs out sc1 sc2 HL HF. apply (transform_finish _ _ _ _ _ HF).
+    intros Nsv. apply (loop_preserves _ _ _ _ _ _ _ _ _ HL Nsv); tauto. }
+  assert (ONE : forall (a:value) r sc1 sc2,
+    eval_transform_stmts ev ss (sset sv a sc0) = Ok (r, sc1) ->
+    (sc1' <- after_iteration transform_scopevar sv (sget sv sc0) sc1 ;;
+     Ok (match sget "." sc0 with Some v => sset "." v sc1' | None => sc1' end)) = Ok sc2 ->
+    sget x sc2 = sget x sc0).
+  { intros a r sc1 sc2 HS HF. apply (transform_finish _ _ _ _ _ HF).
+    intros Nsv. rewrite (tstmts_preserves _ _ _ _ _ HS) by tauto. apply sget_sset_neq. exact Nsv. }
+  destruct argv as [| b | z | s | | l | l | m]; try discriminate.
+  - inv_bind H. destruct a as [r sc1]. inv_bind H. injection H as _ <-. apply (ONE _ _ _ _ Ha0 Ha1).
+  - inv_bind H. destruct a as [r sc1]. inv_bind H. injection H as _ <-. apply (ONE _ _ _ _ Ha0 Ha1).
+  - inv_bind H. destruct a as [r sc1]. inv_bind H. injection H as _ <-. apply (ONE _ _ _ _ Ha0 Ha1).
+  - inv_bind H. destruct a as [r sc1]. inv_bind H. injection H as _ <-. apply (ONE _ _ _ _ Ha0 Ha1).
+  - destruct ty; try discriminate; inv_bind H; destruct a as [out sc1]; inv_bind H; injection H as _ <-; apply (LOOP _ _ _ _ _ Ha0 Ha1).
+  - destruct ty; try discriminate; inv_bind H; destruct a as [out sc1]; inv_bind H; injection H as _ <-; apply (LOOP _ _ _ _ _ Ha0 Ha1).
+  - destruct (negb (String.eqb sv ".")).
+    + inv_bind H. destruct a as [out sc1]. inv_bind H. injection H as _ <-. apply (LOOP _ _ _ _ _ Ha0 Ha1).
+    + inv_bind H. destruct a as [r sc1]. inv_bind H. injection H as _ <-. apply (ONE _ _ _ _ Ha0 Ha1).
 Qed.
 
 Lemma step_preserves vs : preserves (step ev vs).
@@ -283,14 +250,11 @@ Proof.
       inv_bind H. destruct a as [avs sc1]. inv_bind H. destruct a as [r sc2]. injection H as _ <-.
       apply (seq_preserves _ _ _ _ _ Ha N1 N2).
     + destruct (is_dot_func fn) as [f|]; [|discriminate].
-      destruct (String.eqb f "count") eqn:E.
-      * apply String.eqb_eq in E. subst f. destruct args as [|a0 args]; [discriminate|].
-        inv_bind H. destruct a as [c sc1]. cbn [lets_list flat_map] in N1. rewrite in_app_iff in N1.
-        rewrite <- (Hev _ _ _ _ _ Ha) by tauto.
-        destruct c; try discriminate; injection H as _ <-; reflexivity.
-      * exfalso. revert H. clear -E.
-        destruct f as [|c1 [|c2 [|c3 [|c4 [|c5 [|c6 r]]]]]]; try discriminate;
-        repeat match goal with c : ascii |- _ => destruct c as [[] [] [] [] [] [] [] []]; try discriminate end.
+      destruct (String.eqb f "count"); [|discriminate].
+      destruct args as [|a0 args]; [discriminate|].
+      inv_bind H. destruct a as [c sc1]. cbn [lets_list flat_map] in N1. rewrite in_app_iff in N1.
+      rewrite <- (Hev _ _ _ _ _ Ha) by tauto.
+      destruct c; try discriminate; injection H as _ <-; reflexivity.
   - (* EUn *)
     inv_bind H. destruct a as [v1 sc1]. cbn [lets] in N1.
     rewrite <- (Hev _ _ _ _ _ Ha N1 N2).
@@ -326,3 +290,105 @@ Proof.
   induction fuel as [|n IH]; [intros sc e v sc' x H; discriminate|].
   cbn [eval]. apply step_preserves. exact IH.
 Qed.
+
+(* ================= headline statements ================= *)
+
+(* Every variable bound before the evaluation is bound to the same value afterwards, unless the expression itself
+   contains a `let` of that very name.  No hypothesis on scope variables of where / flatten / transforms, none on
+   the views called.  ("__$" is the template-result name, outside the modelled fragment.) *)
+Theorem eval_pure : forall fuel vs sc e v sc' x val,
+  eval fuel vs sc e = Ok (v, sc') -> sget x sc = Some val -> ~ In x (lets e) -> x <> implied_result ->
+  sget x sc' = Some val.
+Proof. intros fuel vs sc e v sc' x val H B N1 N2. rewrite (eval_preserves fuel vs _ _ _ _ _ H N1 N2). exact B. Qed.
+
+(* ... and a variable that was unbound is not left bound (nothing but lets leaks) *)
+Theorem eval_no_leak : forall fuel vs sc e v sc' x,
+  eval fuel vs sc e = Ok (v, sc') -> sget x sc = None -> ~ In x (lets e) -> x <> implied_result -> sget x sc' = None.
+Proof. intros fuel vs sc e v sc' x H B N1 N2. rewrite (eval_preserves fuel vs _ _ _ _ _ H N1 N2). exact B. Qed.
+
+Theorem evaluate_view_pure : forall fuel vs name vw sc v sc' x val,
+  assoc String.eqb name vs = Some vw ->
+  evaluate_view fuel vs name sc = Ok (v, sc') -> sget x sc = Some val -> ~ In x (lets (v_body vw)) -> x <> implied_result ->
+  sget x sc' = Some val.
+Proof.
+  intros fuel vs name vw sc v sc' x val L H B N1 N2. unfold evaluate_view in H. rewrite L in H.
+  exact (eval_pure _ _ _ _ _ _ _ _ H B N1 N2).
+Qed.
+
+(* where / flatten: whatever the right-hand side does (even a `let` of the scope variable's name), the scope
+   variable ends up bound to what it was bound to when the iteration started - for any evaluator of the
+   sub-expressions *)
+Theorem where_restores_local : forall ev sc op l r sv v sc',
+  assoc binop_eqb op strategy_table = Some SLhsOverRhs ->
+  eval_binexpr ev sc op l r sv = Ok (v, sc') ->
+  exists lv sc1, ev sc l = Ok (lv, sc1) /\ sget sv sc' = sget sv sc1.
+Proof.
+  intros ev sc op l r sv v sc' S H. unfold eval_binexpr in H. rewrite S in H.
+  inv_bind H. destruct a as [lv sc1]. exists lv, sc1. split; [exact Ha|].
+  destruct (contained_kind lv) as [ck|]; [|discriminate].
+  destruct (assoc key3_eqb (op, kind_of lv, ck) expr_functions) as [f|]; [|discriminate].
+  inv_bind H. destruct a as [r0 sc2]. inv_bind H. injection H as _ <-.
+  rewrite where_flatten_restores in Ha1. rewrite (after_iteration_restore _ _ _ _ sv Ha1), String.eqb_refl. reflexivity.
+Qed.
+
+Theorem where_restores : forall fuel vs sc op l r sv v sc',
+  assoc binop_eqb op strategy_table = Some SLhsOverRhs ->
+  eval fuel vs sc (EBin op l r sv) = Ok (v, sc') -> ~ In sv (lets l) -> sv <> implied_result ->
+  sget sv sc' = sget sv sc.
+Proof.
+  intros fuel vs sc op l r sv v sc' S H N1 N2. destruct fuel as [|n]; [discriminate|]. cbn [eval step] in H.
+  destruct (where_restores_local _ _ _ _ _ _ _ _ S H) as [lv [sc1 [HL ->]]].
+  exact (eval_preserves n vs _ _ _ _ _ HL N1 N2).
+Qed.
+
+(* transforms: the same (since fixes/C10-2) *)
+Theorem transform_restores_scopevar : forall ev sc arg sv ss ty v sc',
+  is_dot_name arg = false ->
+  eval_transform ev sc arg sv ss ty = Ok (v, sc') ->
+  exists av sc0, ev sc arg = Ok (av, sc0) /\ sget sv sc' = sget sv sc0.
+Proof.
+  intros ev sc arg sv ss ty v sc' ND H. unfold eval_transform in H. rewrite ND in H.
+  inv_bind H. destruct a as [argv sc0]. exists argv, sc0. split; [exact Ha|]. cbv zeta in H.
+  assert (FIN : forall sc1 sc2,
+    (sc1' <- after_iteration transform_scopevar sv (sget sv sc0) sc1 ;;
+     Ok (match sget "." sc0 with Some v => sset "." v sc1' | None => sc1' end)) = Ok sc2 -> sget sv sc2 = sget sv sc0).
+  { intros sc1 sc2 HF. apply (transform_finish _ _ _ _ _ HF). intros N. contradiction. }
+  destruct argv as [| b | z | s | | l | l | m]; try discriminate;
+    try (inv_bind H; destruct a as [r sc1]; inv_bind H; injection H as _ <-; apply (FIN _ _ Ha1)).
+  - destruct ty; try discriminate; inv_bind H; destruct a as [out sc1]; inv_bind H; injection H as _ <-; apply (FIN _ _ Ha1).
+  - destruct ty; try discriminate; inv_bind H; destruct a as [out sc1]; inv_bind H; injection H as _ <-; apply (FIN _ _ Ha1).
+  - destruct (negb (String.eqb sv ".")); inv_bind H; destruct a as [out sc1]; inv_bind H; injection H as _ <-; apply (FIN _ _ Ha1).
+Qed.
+
+(* why Tables.transform_restores is needed: with the code as it was before fixes/C10-2 (delete, no restore) a
+   bound variable of the scope variable's name is lost *)
+Lemma delete_only_loses_binding : forall sv v sc sc',
+  after_iteration SvDeleteOnly sv (Some v) sc = Ok sc' -> sget sv sc' = None.
+Proof. intros sv v sc sc'. cbn [after_iteration]. intros [= <-]. apply sget_sdel_eq. Qed.
+
+(* The hypothesis of eval_pure is needed: a `let` of a name that is already bound (here the parameter p1)
+   replaces that binding in the caller's scope - the real code does the same (known finding). *)
+Definition let_rebind_view : expr :=
+  ETransform (EName "p0") "." [SLet "p1" (ELit (VInt 5)); SAssign "a" (EName "p1")] TyOther.
+Theorem eval_pure_let_refuted :
+  exists fuel vs sc e v sc' x val,
+    eval fuel vs sc e = Ok (v, sc') /\ sget x sc = Some val /\ x <> implied_result /\ sget x sc' <> Some val.
+Proof.
+  exists 5, [], [("p0", VInt 0); ("p1", VInt 1)], let_rebind_view, (VMap [("a", VInt 5)]),
+         [("p1", VInt 5); ("p0", VInt 0)], "p1", (VInt 1).
+  split; [vm_compute; reflexivity|]. split; [reflexivity|]. split; [discriminate|]. vm_compute. discriminate.
+Qed.
+
+(* non-vacuity of eval_pure / where_restores: a where whose scope variable is the name of a bound variable, which
+   is read again afterwards *)
+Definition shadow_where : expr :=
+  EBin OpWHERE (ELit (VList [VStr "a"; VStr "b"])) (EBin OpNE (EName "v") (ELit (VStr "a")) "") "v".
+Example eval_pure_applies :
+  eval 5 [] [("v", VStr "outer")] shadow_where = Ok (VList [VStr "b"], [("v", VStr "outer")])
+  /\ ~ In "v" (lets shadow_where) /\ assoc binop_eqb OpWHERE strategy_table = Some SLhsOverRhs.
+Proof. split; [vm_compute; reflexivity|]. split; [cbn; tauto|reflexivity]. Qed.
+Example transform_restores_applies :
+  eval 5 [] [("v", VStr "outer")]
+       (ETransform (ELit (VList [VStr "a"])) "v" [SAssign "f" (EName "v")] TyOther)
+  = Ok (VList [VMap [("f", VStr "a")]], [("v", VStr "outer")]).
+Proof. vm_compute. reflexivity. Qed.
